@@ -12,7 +12,7 @@
 //    (reported separately; it is a crash, not a scheduling defect).
 //  * Joining a multicast group (done by update_ip_addrs for the solicited-node group on Ethernet) is
 //    announced by the next poll but not scheduled through poll_at; C13 excludes the MLD/IGMP
-//    machinery, so the harnesses flush the pending reports (`multicast_egress`) before they start.
+//    machinery, and the poll harnesses leave `multicast_egress` out (see `poll_core`).
 #[allow(dead_code, unused_imports, unused_variables, unused_mut, unused_macros)]
 mod v_iface_pollat {
     use super::*;
@@ -233,7 +233,20 @@ mod v_iface_pollat {
             assert_combination(want, got, nowi);
         }
 
-        fn two_sockets_path(iface: &mut Interface, now: i64, slaac_on: bool, q0: bool, q1: bool) {
+        /// Two UDP sockets.  Config.slaac, the SLAAC history and the queue states are concrete on each
+        /// path: with a concrete phase Start/Discovering the Maintaining arm of Slaac::poll_at (~5M
+        /// clauses per call at this unwinding bound) is not entered; poll_at_combination covers it.
+        fn two_sockets_path(slaac_on: bool, tag: u8, q0: bool, q1: bool) {
+            let eth: bool = kani::any();
+            let mut dev = NullDev { medium: medium(eth), mtu: 1500, checksum: ChecksumCapabilities::ignored() };
+            let now = any_us(0, T_MAX);
+            let mut iface = Interface::new(config(eth, slaac_on), &mut dev, us(0));
+            iface.update_ip_addrs(|a| {
+                a.push(IpCidr::Ipv6(Ipv6Cidr::new(LL, 64))).unwrap();
+            });
+            if slaac_on {
+                slaac_history(&mut iface, now, tag);
+            }
             udp_socket!(u0, 1000);
             udp_socket!(u1, 1001);
             let mut storage = [SocketStorage::EMPTY, SocketStorage::EMPTY];
@@ -246,34 +259,30 @@ mod v_iface_pollat {
             }
             sockets.add(u0);
             sockets.add(u1);
-            let (d_sock, d_slaac, want, got) = check_combination(iface, &sockets, now, slaac_on);
+            let (d_sock, d_slaac, want, got) = check_combination(&mut iface, &sockets, now, slaac_on);
             kani::cover!(!q0 && q1 && !slaac_on && got.is_some(), "second of two UDP sockets due, SLAAC off");
             kani::cover!(!q0 && !q1 && want.is_none(), "two idle sockets, nothing scheduled");
             kani::cover!(q0 && !q1 && slaac_on && d_slaac.is_some() && d_slaac.unwrap() > us(now), "first socket due before the SLAAC deadline");
             assert_combination(want, got, us(now));
         }
 
-        /// two UDP sockets; SLAAC disabled, or enabled and still soliciting (phases Start / Discovering: the
-        /// Maintaining arm of Slaac::poll_at costs ~5M clauses per call at this unwinding bound and is
-        /// covered by poll_at_combination)
         pub(super) fn combination_two_body() {
-            comb_iface!(dev, iface, now, slaac_on, tag, 2);
             let shape: u8 = kani::any();
             match shape {
-                0 => two_sockets_path(&mut iface, now, slaac_on, false, true),
-                1 => two_sockets_path(&mut iface, now, slaac_on, true, false),
-                _ => two_sockets_path(&mut iface, now, slaac_on, false, false),
+                0 => two_sockets_path(false, 0, false, true),
+                1 => two_sockets_path(false, 0, true, false),
+                2 => two_sockets_path(false, 0, false, false),
+                3 => two_sockets_path(true, 1, true, false),
+                _ => two_sockets_path(true, 1, false, false),
             }
         }
 
         // ------------------------------------------------------------------ poll vs poll_at on a real interface
-        // Medium and whether a datagram is queued are concrete on each path: `Interface::poll` repeats
-        // `poll_egress` (and `multicast_egress` repeats its search for pending joins) until nothing was
-        // sent; those loops carry whole dispatch_ip bodies and must end by constant propagation (the
-        // unwinding bound has to be >= 17 for 16-byte address comparisons).  SLAAC runs on Ethernet
-        // (modelling note at the top); its history is symbolic.
+        // Medium, SLAAC history and whether a datagram is queued are concrete on each path (a concrete
+        // SLAAC phase keeps Slaac::poll_at / sync_required cheap).  SLAAC runs on Ethernet (modelling note
+        // at the top).  The poll itself is `poll_core` below.
         macro_rules! poll_env {
-            ($dev:ident, $iface:ident, $sockets:ident, $now:ident, $slaac_on:expr, $tag:ident, $queued:expr) => {
+            ($dev:ident, $iface:ident, $sockets:ident, $now:ident, $slaac_on:expr, $tag:expr, $queued:expr) => {
                 let eth = $slaac_on;
                 let mut $dev = CapDev::<FRAME>::new(medium(eth), 1500, ChecksumCapabilities::ignored());
                 let $now = any_us(0, T_MAX);
@@ -281,13 +290,8 @@ mod v_iface_pollat {
                 $iface.update_ip_addrs(|a| {
                     a.push(IpCidr::Ipv6(Ipv6Cidr::new(LL, 64))).unwrap();
                 });
-                // announce the solicited-node group now (outside C13), then start counting frames
-                $iface.multicast_egress(&mut $dev);
-                $dev.tx.frames = 0;
                 // histories without a stored route: with one, `sync_slaac_state` alone is beyond the memory
                 // budget at this unwinding bound (stored lifetimes are covered at `Slaac` level, iface_slaac.rs)
-                let $tag: u8 = kani::any();
-                kani::assume($tag <= 3);
                 if $slaac_on {
                     slaac_history(&mut $iface, $now, $tag);
                 }
@@ -303,11 +307,40 @@ mod v_iface_pollat {
             };
         }
 
-        fn nonspin_path(slaac_on: bool, queued: bool) {
+        /// `Interface::poll(t, ..)` as it runs on a device without pending frames, `multicast_egress` left
+        /// out: that function (MLD joins/leaves/reports, outside C13) searches a heapless map in `while`
+        /// loops that CBMC unrolls to the unwinding bound with a complete dispatch_ip in every round,
+        /// which no memory budget survives.  Everything else is the original sequence of calls:
+        /// poll_maintenance; socket_ingress until it reports None; then poll_egress rounds
+        /// { ndisc_rs_egress if SLAAC is enabled; socket_egress } until a round sends nothing.
+        fn poll_core(iface: &mut Interface, t: Instant, dev: &mut CapDev<FRAME>, sockets: &mut SocketSet<'_>) -> PollResult {
+            iface.inner.now = t;
+            let mut res = PollResult::None;
+            iface.poll_maintenance(t);
+            let ing = iface.socket_ingress(dev, sockets);
+            assert!(ing == PollIngressSingleResult::None, "inv:no_frame_pending");
+            // egress round 1
+            iface.inner.now = t;
+            if iface.inner.slaac_enabled {
+                iface.ndisc_rs_egress(dev);
+            }
+            if iface.socket_egress(dev, sockets) == PollResult::SocketStateChanged {
+                res = PollResult::SocketStateChanged;
+                // egress round 2
+                if iface.inner.slaac_enabled {
+                    iface.ndisc_rs_egress(dev);
+                }
+                let again = iface.socket_egress(dev, sockets);
+                assert!(again == PollResult::None, "inv:egress_loop_ends_after_two_rounds");
+            }
+            res
+        }
+
+        fn nonspin_path(slaac_on: bool, tag: u8, queued: bool) {
             poll_env!(dev, iface, sockets, now, slaac_on, tag, queued);
             let nowi = us(now);
             crate::vdump!("PRE now={} slaac_enabled={} slaac={:?} udp_queued={}", nowi, slaac_on, iface.inner.slaac, queued);
-            let res = iface.poll(nowi, &mut dev, &mut sockets);
+            let res = poll_core(&mut iface, nowi, &mut dev, &mut sockets);
             let frames = dev.tx.frames;
             let d = iface.poll_at(nowi, &sockets);
             crate::vdump!("POST frames={} poll={:?} slaac={:?} poll_at={:?} poll_delay={:?}", frames, res, iface.inner.slaac, d, iface.poll_delay(nowi, &sockets));
@@ -330,16 +363,23 @@ mod v_iface_pollat {
             }
         }
 
+        /// the SLAAC history is concrete on each path (a concrete phase keeps Slaac::poll_at / sync_required cheap)
         pub(super) fn nonspin_body() {
-            nonspin_path(true, false);
+            let shape: u8 = kani::any();
+            match shape {
+                0 => nonspin_path(true, 0, false),
+                1 => nonspin_path(true, 1, false),
+                2 => nonspin_path(true, 2, false),
+                _ => nonspin_path(true, 3, false),
+            }
         }
 
         pub(super) fn nonspin_ip_body() {
-            if kani::any() { nonspin_path(false, true) } else { nonspin_path(false, false) }
+            if kani::any() { nonspin_path(false, 0, true) } else { nonspin_path(false, 0, false) }
         }
 
         /// (a queued datagram makes poll_at "now": no early instant exists, so the socket is idle here)
-        pub(super) fn early_body() {
+        fn early_path(tag: u8) {
             poll_env!(dev, iface, sockets, now, true, tag, false);
             let nowi = us(now);
             crate::vdump!("PRE now={} slaac={:?}", nowi, iface.inner.slaac);
@@ -352,12 +392,22 @@ mod v_iface_pollat {
             };
             kani::assume(early);
             crate::vdump!("poll_at({}) = {:?}; polling at {}", nowi, d, us(t));
-            let _ = iface.poll(us(t), &mut dev, &mut sockets);
+            let _ = poll_core(&mut iface, us(t), &mut dev, &mut sockets);
             crate::vdump!("POST frames={} slaac={:?}", dev.tx.frames, iface.inner.slaac);
             kani::cover!(tag == 1 && t > now, "probe inside the solicitation interval");
             kani::cover!(tag == 3 && d.is_none(), "nothing stored: no deadline at all");
             kani::cover!(tag == 2 && t > now, "probe after the last solicitation");
             assert!(dev.tx.frames == 0, "prop:c13_iface_nothing_sent_before_poll_at");
+        }
+
+        pub(super) fn early_body() {
+            let shape: u8 = kani::any();
+            match shape {
+                0 => early_path(0),
+                1 => early_path(1),
+                2 => early_path(2),
+                _ => early_path(3),
+            }
         }
     }
 
@@ -382,28 +432,28 @@ mod v_iface_pollat {
         v6::combination_body();
     }
 
-    // @harness props=C13 cfg=KI6 tier=q to=600 mem=8 unwind=18 opts=nomem covers=3 funcs=Interface::poll_at;Slaac::poll_at;Meta::poll_at;udp::Socket::poll_at bounds=Medium::Ip_or_Ethernet,_Config.slaac_on/off,_SLAAC_history_symbolic_(Start_|_1..=2_solicitations_|_3_unanswered_solicitations_|_router_answer_with_lifetime_0)_cut_to_the_soliciting_phases_(Start_|_1..=2_solicitations_|_3_unanswered_solicitations);_two_UDP_sockets,_3_concrete_queue_shapes_(idle+due,_due+idle,_idle+idle);_neighbor_state_Active;_now_<2^50_us
+    // @harness props=C13 cfg=KI6 tier=q to=600 mem=8 unwind=18 opts=nomem covers=3 funcs=Interface::poll_at;Slaac::poll_at;Meta::poll_at;udp::Socket::poll_at bounds=two_UDP_sockets;_5_concrete_shapes:_SLAAC_disabled_x_(idle+due,_due+idle,_idle+idle)_and_SLAAC_enabled_after_1..=2_solicitations_x_(due+idle,_idle+idle);_Medium::Ip_or_Ethernet;_neighbor_state_Active;_instants_symbolic,_now_<2^50_us
     #[kani::proof]
     pub(crate) fn poll_at_combination_two() {
         #[cfg(feature = "proto-ipv6-slaac")]
         v6::combination_two_body();
     }
 
-    // @harness props=C13 cfg=KI6 tier=q to=900 mem=8 unwind=18 opts=nomem covers=4 funcs=Interface::poll;Interface::poll_at;Interface::poll_egress;Interface::poll_maintenance;Interface::ndisc_rs_egress;Interface::socket_egress;Interface::sync_slaac_state bounds=Ethernet_with_SLAAC_enabled,_SLAAC_history_symbolic_(Start_|_1..=2_solicitations_|_3_unanswered_solicitations_|_router_answer_with_lifetime_0),_events_at_symbolic_instants,_no_stored_route/prefix;_device_accepts_every_frame,_no_frame_pending;_one_idle_UDP_socket;_fragmenter_empty;_multicast_joins_flushed;_now_<2^50_us
+    // @harness props=C13 cfg=KI6 tier=q to=900 mem=8 unwind=18 opts=nomem covers=4 funcs=Interface::poll_maintenance;Interface::socket_ingress;Interface::poll_at;Interface::poll_egress;Interface::poll_maintenance;Interface::ndisc_rs_egress;Interface::socket_egress;Interface::sync_slaac_state bounds=Ethernet_with_SLAAC_enabled,_4_SLAAC_histories_as_concrete_paths_(Start_|_1..=2_solicitations_|_3_unanswered_solicitations_|_router_answer_with_lifetime_0),_events_at_symbolic_instants,_no_stored_route/prefix;_device_accepts_every_frame,_no_frame_pending;_one_idle_UDP_socket;_fragmenter_empty;_Interface::poll_decomposed_into_its_calls_with_multicast_egress_(MLD,_outside_C13)_left_out;_now_<2^50_us
     #[kani::proof]
     pub(crate) fn poll_nonspin_iface() {
         #[cfg(feature = "proto-ipv6-slaac")]
         v6::nonspin_body();
     }
 
-    // @harness props=C13 cfg=KI6 tier=q to=900 mem=8 unwind=18 opts=nomem covers=2 funcs=Interface::poll;Interface::poll_at;Interface::poll_egress;Interface::socket_egress;udp::Socket::dispatch bounds=Medium::Ip,_SLAAC_disabled;_device_accepts_every_frame,_no_frame_pending;_one_UDP_socket_with_0..=1_queued_2-byte_datagram;_fragmenter_empty;_now_<2^50_us
+    // @harness props=C13 cfg=KI6 tier=q to=900 mem=8 unwind=18 opts=nomem covers=2 funcs=Interface::poll_maintenance;Interface::socket_ingress;Interface::poll_at;Interface::poll_egress;Interface::socket_egress;udp::Socket::dispatch bounds=Medium::Ip,_SLAAC_disabled;_device_accepts_every_frame,_no_frame_pending;_one_UDP_socket_with_0..=1_queued_2-byte_datagram;_fragmenter_empty;_Interface::poll_decomposed_into_its_calls_with_multicast_egress_left_out;_now_<2^50_us
     #[kani::proof]
     pub(crate) fn poll_nonspin_iface_ip() {
         #[cfg(feature = "proto-ipv6-slaac")]
         v6::nonspin_ip_body();
     }
 
-    // @harness props=C13 cfg=KI6 tier=q to=900 mem=8 unwind=18 opts=nomem covers=3 funcs=Interface::poll;Interface::poll_at;Interface::poll_egress;Interface::ndisc_rs_egress;Interface::socket_egress bounds=same_interface_as_poll_nonspin_iface;_deadline_taken_at_now,_poll_at_any_probe_instant_in_[now,deadline)
+    // @harness props=C13 cfg=KI6 tier=q to=900 mem=8 unwind=18 opts=nomem covers=3 funcs=Interface::poll_maintenance;Interface::socket_ingress;Interface::poll_at;Interface::poll_egress;Interface::ndisc_rs_egress;Interface::socket_egress bounds=same_interface_as_poll_nonspin_iface;_deadline_taken_at_now,_poll_at_any_probe_instant_in_[now,deadline)
     #[kani::proof]
     pub(crate) fn poll_early_iface() {
         #[cfg(feature = "proto-ipv6-slaac")]
